@@ -1,6 +1,6 @@
 #!/bin/bash
 # usage: tools/try_seed.sh <patch.diff> <property ids...>   (applies to /repo, runs quick checks, reverts)
-patch="$1"; shift
+patch="$(realpath "$1")"; shift
 cd /repo || exit 2
 git apply --check "$patch" || { echo "patch does not apply"; exit 2; }
 git apply "$patch"
